@@ -31,7 +31,8 @@ Has(m, ts) == \E p \in pts : p[1] = m /\ p[2] = ts
 Oldest(m) == CHOOSE t \in {p[2] : p \in Points(m)} : \A p \in Points(m) : t <= p[2]
 MaxCount == IF keys = {} THEN 0 ELSE
             CHOOSE c \in {Count(m) : m \in keys} : \A m \in keys : Count(m) <= c
-Idle == [op |-> "none", m |-> 0, ts |-> 0, id |-> 0, st |-> "idle", rm |-> 0, rb |-> {}, rsig |-> 0]
+Idle == [op |-> "none", m |-> 0, ts |-> 0, id |-> 0, st |-> "idle", rm |-> 0, rb |-> {}, rsig |-> 0,
+         win |-> FALSE]     \* win: the call overlapped the window in which the writer had chosen its metric
 
 Init == /\ tid \in 1..Len(Traces)
         /\ l = 1 /\ pts = {} /\ keys = {} /\ flags = {}
@@ -46,7 +47,8 @@ Call ==
   /\ LET e == Ev[l] IN
        /\ pend[e.t].st = "idle"
        /\ pend' = [pend EXCEPT ![e.t] = [Idle EXCEPT !.op = e.op, !.m = e.m, !.ts = e.ts,
-                                                  !.id = e.id, !.st = "called"]]
+                                                  !.id = e.id, !.st = "called",
+                                                  !.win = (e.op = "store" /\ chosen # 0 /\ chosen = e.m)]]
   /\ l' = l + 1
   /\ UNCHANGED <<tid, pts, keys, flags, remaining, chosen>>
 
@@ -86,7 +88,7 @@ RetStore ==
                  /\ UNCHANGED flags
             ELSE \* the call raised: the effect may or may not have happened
                  /\ flags' = flags \cup
-                      {IF T.strategy = "bucketmax" /\ chosen = p.m /\ chosen # 0 THEN "f9" ELSE "storeraised"}
+                      {IF T.strategy = "bucketmax" /\ p.win THEN "f9" ELSE "storeraised"}
        /\ pend' = [pend EXCEPT ![e.t] = Idle]
   /\ l' = l + 1
   /\ UNCHANGED <<tid, pts, keys, remaining, chosen>>
@@ -161,8 +163,10 @@ Chose ==
      IN /\ flags' = flags \cup f1 \cup f2 \cup f3 \cup f4
         /\ remaining' = IF T.strategy \in PassStrategies THEN rem \ {e.m} ELSE remaining
         /\ chosen' = e.m
+        /\ pend' = [t \in Threads |-> IF pend[t].op = "store" /\ e.m # 0 /\ pend[t].m = e.m
+                                         THEN [pend[t] EXCEPT !.win = TRUE] ELSE pend[t]]
   /\ l' = l + 1
-  /\ UNCHANGED <<tid, pts, keys, pend>>
+  /\ UNCHANGED <<tid, pts, keys>>
 
 \* ---- observations at lock-free scheduling points ----
 Obs ==
